@@ -5,6 +5,10 @@ mod common;
 mod strings;
 mod suite_entity;
 mod suite_forest;
+mod suite_rt;
+mod idmap_hist;
+mod idmap_oracle;
+mod suite_idmap;
 mod suite_tree;
 mod tree;
 
@@ -26,6 +30,8 @@ fn main() {
         "entity" => suite_entity::run(seed, count, tier, &mut sink),
         "tree" => suite_tree::run(seed, count, tier, &mut sink),
         "forest" => suite_forest::run(seed, count, tier, &mut sink),
+        "rt" => suite_rt::run(seed, count, tier, &mut sink),
+        "idmap" => suite_idmap::run(seed, count, tier, &mut sink),
         _ => {
             eprintln!("unknown suite {}", suite);
             std::process::exit(2);
